@@ -98,6 +98,9 @@ func genHistOpts(c *sim.Case) histOpts {
 	ho.idTTL, _ = time.ParseDuration(sim.PickStr(c, "idttl", "60s", "600s", "3600s"))
 	ho.expIn = []int{0, 30, 300, 7200}[sim.Pick(c, "expires_in", 4)]
 	ho.noRT = sim.Weighted(c, "no-refresh-token", 3, 1) == 1
+	if ho.o.Logout && ho.o.Discovery && sim.Bool(c, "explicit-logout-uri") {
+		ho.o.LogoutURI = "http://sso.test/custom-logout"
+	}
 	return ho
 }
 
@@ -136,7 +139,11 @@ func runWithFaults(c *sim.Case, ho histOpts, ops []op, mons func() []monitor, ma
 	}
 	ho.faults = map[int]string{}
 	for i := 0; i < nf; i++ {
-		ho.faults[sim.Pick(c, "fault.pos", P)] = sim.PickStr(c, "fault.mode", "before", "after")
+		modes := []string{"before", "after"}
+		if ho.o.Store == "redis" {
+			modes = append(modes, "redis") // every Redis command of that store call fails (outage below the store)
+		}
+		ho.faults[sim.Pick(c, "fault.pos", P)] = modes[sim.Pick(c, "fault.mode", len(modes))]
 	}
 	c.Logf("--- run with faults %v (of %d interception points)", ho.faults, P)
 	h2 := ho.build(c, mons()...)
@@ -237,7 +244,11 @@ func c01Enum(pairs bool) func(c *sim.Case) {
 		}
 		ho.faults = map[int]string{}
 		p1 := sim.Pick(c, "pos", P)
-		ho.faults[p1] = sim.PickStr(c, "mode", "before", "after")
+		modes := []string{"before", "after"}
+		if st == 1 {
+			modes = append(modes, "redis")
+		}
+		ho.faults[p1] = modes[sim.Pick(c, "mode", len(modes))]
 		if pairs {
 			if p1 == P-1 {
 				c.Skip("no later position")
